@@ -27,7 +27,8 @@ pub fn create_quic_server(tls: &TlsServerConfig) -> Result<ServerConfig, Error> 
     let (certs, key) = tls.certs()?;
     let mut server_crypto = rustls::ServerConfig::builder()
         .with_safe_defaults()
-        .with_no_client_auth()
+        // the same client certificate policy (tls.client) as the TCP based listeners
+        .with_client_cert_verifier(tls.client_auth()?)
         .with_single_cert(certs, key)
         .context("load certificate")?;
     server_crypto.alpn_protocols = ALPN_QUIC_HTTP11C.iter().map(|&x| x.into()).collect();
